@@ -235,7 +235,8 @@ def Count_metadata(self):
 
 
 def ILI_metadata(self):
-    return get_metadata(self._id, 'proposed_ilis' if self.status == 'proposed' else 'ilis')
+    # the table the ILI is a row of: a proposed ILI is the one without an id (the status of an existing ILI is free text)
+    return get_metadata(self._id, 'proposed_ilis' if self.id is None else 'ilis')
 
 
 # ---- C12: relations borrowed through expand lexicons ---------------------------------------------------------
